@@ -571,3 +571,54 @@ Lemma delete_effect n st :
   (st_cvs (del_bias n st) = st_cvs st /\
    (forall b, In b (st_biases (del_bias n st)) <-> In b (st_biases st) /\ fst b <> n)).
 Proof. split; [apply del_cv_spec | apply del_bias_spec]. Qed.
+
+(* ================= every command, every argument count ================= *)
+Definition witness_n (k : objkind) (sub name : string) (n : nat) : list string :=
+  match k with
+  | OModule => "cv" :: sub :: repeat "" n
+  | OColvar => "cv" :: "colvar" :: name :: sub :: repeat "" n
+  | OBias => "cv" :: "bias" :: name :: sub :: repeat "" n
+  end.
+
+Lemma dispatch_any_argument_count tbl cvs bs e k sub name n :
+  table_wf tbl = true -> In e tbl -> is_pseudo e = false -> entry_class e = Some (k, sub) ->
+  (k = OColvar -> In name cvs) -> (k = OBias -> In name bs) ->
+  dispatch tbl cvs bs (witness_n k sub name n) = check_nargs k e (shift_of k + Z.of_nat n) true.
+Proof.
+  intros Hwf Hin Hps Hcl Hc Hb.
+  assert (Hl := lookup_wf _ _ Hwf Hin).
+  assert (Hn := entry_class_name _ _ _ Hcl).
+  destruct k; cbn [witness_n prefix_of] in *.
+  - unfold dispatch.
+    assert (E1 : String.eqb sub "colvar" = false).
+    { apply String.eqb_neq. intros ->. unfold is_pseudo in Hps. rewrite Hn in Hps. cbn in Hps. discriminate. }
+    assert (E2 : String.eqb sub "bias" = false).
+    { apply String.eqb_neq. intros ->. unfold is_pseudo in Hps. rewrite Hn in Hps. cbn in Hps. discriminate. }
+    rewrite E1, E2. cbn [prefix_of]. rewrite <- Hn, Hl. f_equal.
+    cbn [List.length shift_of]. rewrite repeat_length. lia.
+  - unfold dispatch. replace (String.eqb "colvar" "colvar") with true by reflexivity. unfold dispatch_obj.
+    assert (Hm : mem_str name cvs = true) by (apply mem_str_in; apply Hc; reflexivity).
+    rewrite Hm. cbn [negb andb prefix_of]. rewrite <- Hn, Hl. f_equal.
+    cbn [List.length shift_of]. rewrite repeat_length. lia.
+  - unfold dispatch. replace (String.eqb "bias" "colvar") with false by reflexivity.
+    replace (String.eqb "bias" "bias") with true by reflexivity. unfold dispatch_obj.
+    assert (Hm : mem_str name bs = true) by (apply mem_str_in; apply Hb; reflexivity).
+    rewrite Hm. cbn [negb andb prefix_of]. rewrite <- Hn, Hl. f_equal.
+    cbn [List.length shift_of]. rewrite repeat_length. lia.
+Qed.
+
+(* spelled out: too few / too many / run, for every number of arguments *)
+Lemma dispatch_total_per_argument_count tbl cvs bs e k sub name n :
+  table_wf tbl = true -> In e tbl -> is_pseudo e = false -> entry_class e = Some (k, sub) ->
+  (k = OColvar -> In name cvs) -> (k = OBias -> In name bs) ->
+  dispatch tbl cvs bs (witness_n k sub name n) =
+    if (Z.of_nat n <? e_min e) then ErrTooFewArgs e else if (e_max e <? Z.of_nat n) then ErrTooManyArgs e else Run k e true.
+Proof.
+  intros. rewrite (dispatch_any_argument_count tbl cvs bs e k sub name n); try assumption.
+  unfold check_nargs.
+  replace (shift_of k + Z.of_nat n <? shift_of k + e_min e) with (Z.of_nat n <? e_min e)
+    by (destruct (Z.of_nat n <? e_min e) eqn:E; symmetry; [apply Z.ltb_lt; apply Z.ltb_lt in E; lia | apply Z.ltb_ge; apply Z.ltb_ge in E; lia]).
+  replace (shift_of k + e_max e <? shift_of k + Z.of_nat n) with (e_max e <? Z.of_nat n)
+    by (destruct (e_max e <? Z.of_nat n) eqn:E; symmetry; [apply Z.ltb_lt; apply Z.ltb_lt in E; lia | apply Z.ltb_ge; apply Z.ltb_ge in E; lia]).
+  reflexivity.
+Qed.
